@@ -6,7 +6,8 @@
   and inserted again).  In-memory store: for every reachable state (any history), proved for
   the code AFTER the `fix:` commit f29ec8a (hash pre-check in `insert`); the code before it
   violates the property (`mem_prefix_counterexample`).  Redb store: for every state whatsoever,
-  by atomicity of the write transaction (the named hypothesis encoded in `RedbStore.writeTx`).
+  from `write_tx` as written (commit only when the closure returned `Ok`) and the redb contract
+  that `abort` discards the transaction's working copy (`RedbStore.WriteTxn`).
 -/
 import Lumina.Proofs.StoreHist
 import Lumina.Gen.C20
@@ -49,8 +50,23 @@ theorem mem_failed_op_then (v : Hdr → Hdr → Bool) (ops : List Op) (op next :
   intro m h
   rw [mem_failed_op_unchanged v ops op hw hop h]
 
-/-- REDB STORE: in ANY state a failed call leaves the tables unchanged (transaction abort). -/
-theorem redb_failed_op_unchanged (v : Hdr → Hdr → Bool) (t : Tables) (op : Op) :
+/-- REDB STORE: in ANY state a failed call leaves the committed tables unchanged.  Stated on
+    `RedbStore.stepL`, the transcription of `write_tx` as written (begin, run the closure on the
+    transaction, `if res.is_ok() { commit } else { abort }`), for EVERY `dirty` = whatever the
+    failing closure had already written into the transaction.  Uses lumina's branch and the redb
+    contract `WriteTxn.abort` (abort discards the working copy; crash behaviour is C22). -/
+theorem redb_failed_op_unchanged (dirty : Tables → Tables) (v : Hdr → Hdr → Bool) (t : Tables) (op : Op) :
+    (RedbStore.stepL dirty v t op).2.isErr = true → (RedbStore.stepL dirty v t op).1 = t :=
+  redb_errL_unchanged dirty v t op
+
+/-- `write_tx` as written realises the all-or-nothing summary `RedbStore.step` that the
+    refinement theorems of C19/C21 and the driver use, whatever a failing closure leaves behind -/
+theorem redb_write_tx_realises_summary (dirty : Tables → Tables) (v : Hdr → Hdr → Bool) (t : Tables) (op : Op) :
+    RedbStore.stepL dirty v t op = RedbStore.step v t op :=
+  stepL_eq_step dirty v t op
+
+/-- … hence the statement on the summary too -/
+theorem redb_summary_failed_op_unchanged (v : Hdr → Hdr → Bool) (t : Tables) (op : Op) :
     (RedbStore.step v t op).2.isErr = true → (RedbStore.step v t op).1 = t :=
   redb_err_unchanged v t op
 
@@ -91,7 +107,23 @@ example : (MemStore.step cexV cexStore (.insert [hd 1 2 101])).2 = .err (.constr
     (MemStore.step cexV cexStore (.insert [hd 7 9 107, hd 9 11 109])).2 = .err .headersVerificationFailed ∧
     (MemStore.step (fun _ _ => false) cexStore (.insert [hd 2 3 102])).2 = .err .neighborsVerificationFailed ∧
     (MemStore.step cexV cexStore (.remove 7)).2 = .err .notFound ∧
-    (RedbStore.step cexV RedbStore.new (.mark 3)).2 = .err .notFound := by
+    (RedbStore.stepL id cexV RedbStore.new (.mark 3)).2 = .err .notFound := by
   decide
+
+/-- the redb theorem is about lumina's branch, not true by construction: a `write_tx` that
+    committed on the error path too would publish the partial writes of a failing closure -/
+def writeTxCommitAlways {α : Type} (dirty : Tables → Tables) (f : Tables → Except Err (Tables × α)) (t : Tables) :
+    Tables × Except Err α :=
+  let (tx, res) := (RedbStore.beginWrite t).run f dirty
+  (tx.commit, res)
+
+example : ∃ (dirty : Tables → Tables) (t : Tables),
+    (toRes (writeTxCommitAlways dirty (RedbStore.removeHeightTx 7) t).2 (fun _ => Out.unit)).isErr = true ∧
+    (writeTxCommitAlways dirty (RedbStore.removeHeightTx 7) t).1 ≠ t :=
+  ⟨fun t => { t with headers := [(9, hd 9 9 109)] }, RedbStore.new, by decide, by
+    intro h
+    have : (writeTxCommitAlways (fun t => { t with headers := [(9, hd 9 9 109)] })
+        (RedbStore.removeHeightTx 7) RedbStore.new).1.headers = RedbStore.new.headers := by rw [h]
+    revert this; decide⟩
 
 end Lumina.Props.C20
